@@ -34,6 +34,19 @@ def DEC(v):
     return lambda fn: fn
 import io
 NULLF = io.StringIO()
+# user callables whose names begin with names the converter generates
+def fscope_rank(x):
+    return T("fr", x)
+def lscope_width(x):
+    return T("lw", x)
+def ag__user(x):
+    return T("au", x)
+class _NS(object):
+    @staticmethod
+    def lookup(x):
+        return T("nl", x)
+fscopes = _NS()
+lscopes = _NS()
 '''
 
 EXPRS = {
@@ -49,6 +62,11 @@ EXPRS = {
     'call_in_arg': 'H2(T("y", a), y=T("z", b))',
     'and_in_call': 'T("q", a > 0 and b > 0)',
     'not_in_ifexp': '(b if not a > 0 else c)',
+    'call_fscope_prefixed': 'fscope_rank(a)',
+    'call_lscope_prefixed': 'lscope_width(b)',
+    'call_ag_prefixed': 'ag__user(c)',
+    'call_fscopes_attr': 'fscopes.lookup(a)',
+    'call_lscopes_attr': 'lscopes.lookup(b)',
 }
 STMTS = {
     'if': 'if a > 0:\n    r = r + b\nelse:\n    r = r + c',
@@ -111,6 +129,32 @@ def matrix_cases():
         'with_item': 'with CM(str(%s)):\n    r = r + 1' % e,
         'print_arg': 'print(%s, file=NULLF)' % e,
         'print_call_arg': 'print(H2(%s), file=NULLF)' % e,
+        # operand positions of every other expression form
+        'unary_minus': 'r = -(%s)' % e,
+        'unary_plus': 'r = +(%s)' % e,
+        'unary_invert': 'r = ~(%s)' % e,
+        'unary_nested': 'r = -(+(%s))' % e,
+        'binop_left': 'r = (%s) + a' % e,
+        'binop_right': 'r = a * (%s)' % e,
+        'compare_operands': 'r = (%s) == (%s)' % (e, e),
+        'tuple_element': 'r = (a, %s)[1]' % e,
+        'list_element': 'r = [%s][0]' % e,
+        'dict_value': 'r = {"k": %s}["k"]' % e,
+        'set_element': 'r = len({%s})' % e,
+        'slice_bound': 'r = [a, b, c][(0 if %s else 1):][0]' % e,
+        'fstring': 'r = len(f"{%s}")' % e,
+        'starred_arg': 'r = H2(*[%s])' % e,
+        'double_starred_arg': 'r = H2(a, **{"y": %s})' % e,
+        'walrus': 'r = (w2 := %s)' % e,
+        'assert_test': 'assert (%s) or True' % e,
+        'raise_arg': 'try:\n    raise E1(str(%s))\nexcept E1:\n    pass' % e,
+        'comp_condition': 'r = [q for q in range(2) if %s]' % e,
+        'comp_iter': 'r = [q for q in TrSeq([%s])]' % e,
+        'genexp_element': 'r = list(%s for q in range(2))' % e,
+        'lambda_default': 'r = (lambda p=%s: p)()' % e,
+        'attribute_base': 'r = Obj(%s, a).p' % e,
+        'call_func_position': 'r = (H2 if %s else H2)(a)' % e,
+        'method_receiver': 'r = str(%s).strip()' % e,
     }
     for cname, body in sorted(extra.items()):
       yield 'expr/%s/%s' % (ename, cname), body
